@@ -123,7 +123,7 @@ S2Pair(x, y) ==
   /\ S2NormV(xy) = S2NormV(x) * S2NormV(y)
   /\ S2ToOmV(xy) = OmMulV(ex, ey) /\ S2ToOmV(s) = OmAddV(ex, ey)
   /\ (xy = S2Zero => (x = S2Zero \/ y = S2Zero))
-  /\ y # S2Zero => /\ (\E q \in S2Set(3 * B2) : S2MulV(q, y) = x) => S2DividesV(y, x)
+  /\ y # S2Zero => /\ (\E q \in S2Set(B2 + 2) : S2MulV(q, y) = x) => S2DividesV(y, x)
                    /\ S2DividesV(y, x) => S2MulV(S2QuotV(x, y), y) = x
                    /\ S2DividesV(y, xy) /\ S2QuotV(xy, y) = x
 S2Triple(x, y, z) ==
